@@ -315,6 +315,44 @@ def call_candidates(cname):
     return {cname.lower(), re.sub(r"^zng_", "", cname.lower())}
 
 
+def c_literals(body, macros):
+    """integer literals of a C function body (and the values of the integer macros it names), small ones excluded"""
+    out = set()
+    for m in re.finditer(r"(?<![\w.])(0[xX][0-9a-fA-F]+|\d+)[uUlL]*(?![\w.])", body):
+        try:
+            v = int(m.group(1), 0)
+        except ValueError:
+            continue
+        if v >= 7:
+            out.add(v)
+    for m in re.finditer(r"\b([A-Z][A-Z0-9_]{2,})\b", body):
+        v = macros.get(m.group(1))
+        if isinstance(v, int) and v >= 7:
+            out.add(v)
+    return out
+
+
+def rust_literals(fns):
+    out = set()
+
+    def scan(node):
+        if isinstance(node, dict):
+            if node.get("k") == "const" and isinstance(node.get("val"), int):
+                out.add(node["val"])
+            for v in node.values():
+                scan(v)
+        elif isinstance(node, list):
+            for v in node:
+                scan(v)
+    for f in fns:
+        for bi in f.live:
+            scan(f.blocks[bi]["s"])
+            scan(f.blocks[bi]["t"])
+        for pr in f.j.get("promoted", []) or []:
+            scan(pr)
+    return out
+
+
 def rust_callee_names(fns):
     out = set()
     for f in fns:
@@ -400,6 +438,12 @@ def check(ck, P, rule, only=None):
             ck.decide(bool(alts & wr), rule, "%s:stores:%s" % (cname, cf), "still stored",
                       "zlib-ng's %s assigns `%s`; %s (with its helpers) no longer stores it: the port has lost a state update of its reference"
                       % (cname, cf, ", ".join(f.path.replace(Z, "") for f in fns)), where(fns[0]))
+        lits = rust_literals(allf)
+        for v in table.get("literals", {}).get(key, []):
+            n += 1
+            ck.decide(v in lits, rule, "%s:literal:%d" % (cname, v), "constant still used",
+                      "zlib-ng's %s uses the constant %d (0x%x); %s no longer does - a size, threshold or mask of the reference has changed"
+                      % (cname, v, v, ", ".join(f.path.replace(Z, "") for f in fns)), where(fns[0]))
         have = rust_callee_names(allf)
         for cc in table.get("calls", {}).get(key, []):
             n += 1
